@@ -1179,7 +1179,9 @@ class SheppLoganDataset(Dataset):
 
     @staticmethod
     def fft(x):
-        return np.fft.ifftshift(np.fft.fft2(np.fft.fftshift(x), axes=(1, 2), norm="ortho"))
+        return np.fft.fftshift(
+            np.fft.fft2(np.fft.ifftshift(x, axes=(1, 2)), axes=(1, 2), norm="ortho"), axes=(1, 2)
+        )
 
 
 def _mr_relaxation_parameters() -> dict[str, list]:
